@@ -33,11 +33,21 @@ structure GRule where
   nneg : List GAtom := []
   deriving Repr, DecidableEq, Inhabited
 
-def rootName : Part → String
+/-- the three roots a program part can have after rewriting -/
+inductive Root where
+  | initial | always | dynamic
+  deriving Repr, DecidableEq, Inhabited
+
+def Root.name : Root → String
   | .initial => "initial"
   | .always => "always"
   | .dynamic => "dynamic"
-  | .final => "always"
+
+def rootOf : Part → Root
+  | .initial => .initial
+  | .always => .always
+  | .dynamic => .dynamic
+  | .final => .always
 
 def isConstraintHead : Head → Bool
   | .falsum => true
@@ -58,21 +68,46 @@ def maxShift (r : TRule) : Nat :=
 def lookahead (r : TRule) : Nat :=
   if isConstraintHead r.head && r.part != .final then maxShift r else 0
 
-/-- names of the two extra parts of a look-ahead constraint of depth `n > 0` -/
-def tempPartName (root : String) (n : Nat) : String := root ++ "_0_" ++ toString (n - 1)
-def permPartName (root : String) (n : Nat) : String := root ++ "_" ++ toString n
+/-- kinds of program parts: the root part itself, and the two extra parts of look-ahead constraints
+    of depth `n > 0`: `root_0_{n-1}` (re-grounded, guarded by `__final(u)`) and `root_n` (grounded once) -/
+inductive PartKind where
+  | std
+  | temp (n : Nat)
+  | perm (n : Nat)
+  deriving Repr, DecidableEq, Inhabited
 
-/-- `(name, shift)` keys of `constraint_parts`, in first-occurrence order (dict insertion order) -/
-def lookKeys (P : TProg) : List (String × Nat) :=
+structure SPart where
+  root : Root
+  kind : PartKind
+  deriving Repr, DecidableEq, Inhabited
+
+def SPart.name (p : SPart) : String :=
+  match p.kind with
+  | .std => p.root.name
+  | .temp n => p.root.name ++ "_0_" ++ toString (n - 1)
+  | .perm n => p.root.name ++ "_" ++ toString n
+
+def SPart.range (p : SPart) : List Int :=
+  match p.kind with
+  | .std => [0]
+  | .temp n => (List.range n).map Int.ofNat
+  | .perm n => [(n : Int)]
+
+def SPart.toSpec (p : SPart) : PartSpec := ⟨p.root.name, p.name, p.range⟩
+
+/-- `(root, shift)` keys of `constraint_parts`, in first-occurrence order (dict insertion order) -/
+def lookKeys (P : TProg) : List (Root × Nat) :=
   P.foldl (fun acc r =>
     let n := lookahead r
-    if n > 0 && !(acc.contains (rootName r.part, n)) then acc ++ [(rootName r.part, n)] else acc) []
+    if n > 0 && !(acc.contains (rootOf r.part, n)) then acc ++ [(rootOf r.part, n)] else acc) []
+
+/-- the program parts, structured -/
+def spartsOf (P : TProg) : List SPart :=
+  (lookKeys P).flatMap (fun (root, n) => [⟨root, .temp n⟩, ⟨root, .perm n⟩]) ++
+  [⟨.always, .std⟩, ⟨.dynamic, .std⟩, ⟨.initial, .std⟩]
 
 /-- the `reground_parts` list returned by `transform` -/
-def partsOf (P : TProg) : List PartSpec :=
-  (lookKeys P).flatMap (fun (root, n) =>
-    [⟨root, tempPartName root n, (List.range n).map Int.ofNat⟩, ⟨root, permPartName root n, [(n : Int)]⟩]) ++
-  [⟨"always", "always", [0]⟩, ⟨"dynamic", "dynamic", [0]⟩, ⟨"initial", "initial", [0]⟩]
+def partsOf (P : TProg) : List PartSpec := (spartsOf P).map SPart.toSpec
 
 /-- future heads `(atom, n)` -/
 def futureHeads (P : TProg) : List (String × Nat) :=
@@ -140,25 +175,29 @@ def instAt (s : Nat) (t : Int) (guard : Option Int) (r : TRule) : Option GRule :
       mkRule [] false (body ++ [signLit flip (known s (t + n)) (.user a (t + n))])
   | .tel _ => none
 
-/-- rules living in the program part `name` (with their guard flag) -/
-def rulesOfPart (P : TProg) (name : String) : List (TRule × Bool) :=
+/-- rules living in a program part (with their guard flag) -/
+def rulesOfPart (P : TProg) (p : SPart) : List (TRule × Bool) :=
   P.filterMap fun r =>
-    let n := lookahead r
-    let root := rootName r.part
-    if n = 0 then (if name == root then some (r, false) else none)
-    else if name == tempPartName root n then some (r, true)
-    else if name == permPartName root n then some (r, false)
-    else none
+    if rootOf r.part != p.root then none else
+    match p.kind with
+    | .std => if lookahead r = 0 then some (r, false) else none
+    | .temp n => if lookahead r = n && n > 0 then some (r, true) else none
+    | .perm n => if lookahead r = n && n > 0 then some (r, false) else none
+
+/-- the part instances `(part, t)` selected at step `s` by the generated `partCond` -/
+def selected (P : TProg) (s : Nat) : List (SPart × Int) :=
+  (spartsOf P).flatMap fun p => p.range.filterMap fun i =>
+    if partCond p.root.name (s : Int) i then some (p, (s : Int) - i) else none
 
 /-- everything one `ground(parts)` call at step `s` adds -/
 def groundAt (P : TProg) (s : Nat) : List GRule :=
-  (groundParts (partsOf P) s).flatMap fun gp =>
-    ((rulesOfPart P gp.name).filterMap fun (r, guarded) =>
-      instAt s gp.t (if guarded then some gp.u else none) r) ++
-    (if gp.name == "always" then
-      (futureHeads P).map fun (a, n) => ({ head := [.user a gp.t], pos := [.future a n gp.t] } : GRule)
+  (selected P s).flatMap fun (p, t) =>
+    ((rulesOfPart P p).filterMap fun (r, guarded) =>
+      instAt s t (if guarded then some (s : Int) else none) r) ++
+    (if p = ⟨.always, .std⟩ then
+      (futureHeads P).map fun (a, n) => ({ head := [.user a t], pos := [.future a n t] } : GRule)
      else []) ++
-    (if gp.name == "initial" then [({ head := [.initial gp.t] } : GRule)] else [])
+    (if p = ⟨.initial, .std⟩ then [({ head := [.initial t] } : GRule)] else [])
 
 /-- rules accumulated over the incremental history `0..h` -/
 def accRules (P : TProg) : Nat → List GRule
